@@ -98,6 +98,7 @@ GhostInit ==
     sigTargets |-> {},         \* pids signalled while handling the current signal/kill request
     snapk    |-> <<>>,         \* the kernel table when the current request arrived
     ctxDie   |-> FALSE,        \* a worker died while the current request was being handled
+    ctxErr   |-> FALSE,        \* the current request has been answered with an error
     par0     |-> <<>>,         \* pid -> the parent it was forked by (0 for the daemon's own children)
     lastStatus |-> <<>>,       \* pid -> result of the last status() read ("" none)
     pruned   |-> {},           \* pids dropped from tracking right after a dead status read, never reaped (D4)
@@ -341,7 +342,8 @@ Upd(g, o, ln, o2) ==
                !.dsigBusy = @ \/ (ln.k = "dsig" /\ ln.a \in {15, 2, 3} /\ o2.slot # ""),
                !.sigTargets = IF isReq THEN {} ELSE IF ln.k \in SigKinds /\ ln.r # "nsp" THEN @ \cup {ln.p} ELSE @,
                !.snapk = IF isReq THEN o2.k ELSE @,
-               !.ctxDie = IF isReq THEN FALSE ELSE @ \/ ln.k \in {"die", "sigdeath", "extkill"} ]
+               !.ctxDie = IF isReq THEN FALSE ELSE @ \/ ln.k \in {"die", "sigdeath", "extkill"},
+               !.ctxErr = IF isReq THEN FALSE ELSE @ \/ (isRep /\ g.ctx.on /\ ln.x = g.ctx.cid /\ ln.r = "error") ]
   IN g1
 
 ---------------------------------------------------------------------------
@@ -614,7 +616,8 @@ C18_exact(g, ln) ==
    (ln.k = "reqend" /\ g.ctx.on /\ g.ctx.cmd = "signal" /\ ln.x = g.ctx.cid) =>
       /\ g.sigTargets \subseteq Addressed(g)
       \* ... and all of them, unless a hook vetoes or somebody died meanwhile
-      /\ (~g.ctxDie /\ CfgW(g, g.ctx.lname).hooks = <<>> /\ g.ctx.signum >= 0) =>
+      \* (a request that was refused - childpid without pid, a child pid that is not a child - owes nobody a signal)
+      /\ (~g.ctxDie /\ ~g.ctxErr /\ CfgW(g, g.ctx.lname).hooks = <<>> /\ g.ctx.signum >= 0) =>
             { p \in Addressed(g) : SnapSt(g, p) \in {"run", "zombie"} } \subseteq g.sigTargets
 
 \* ---------------- C12 (schedule half: reloadconfig with deaths, periodic checks and read-only requests in between;
